@@ -65,6 +65,28 @@ M = [
     ("sum_skips_last", "src/vsc/model/field_array_model.py",
      "            for i in range(int(self.size.get_val())):\n                f = self.field_l[i]\n                ret = ExprBinModel(\n                    ret,\n                    BinExprType.Add,",
      "            for i in range(max(0, int(self.size.get_val())-1)):\n                f = self.field_l[i]\n                ret = ExprBinModel(\n                    ret,\n                    BinExprType.Add,", ["C04"]),
+    ("bounds_var_lt_offset", "src/vsc/visitors/variable_bound_visitor.py",
+     "            propagator = VariableBoundBoundsMaxPropagator(\n                lhs_bounds, rhs_bounds, -1)",
+     "            propagator = VariableBoundBoundsMaxPropagator(\n                lhs_bounds, rhs_bounds, -2)", ["C14"]),
+    ("bounds_var_gt_offset", "src/vsc/visitors/variable_bound_visitor.py",
+     "            propagator = VariableBoundBoundsMinPropagator(\n                lhs_bounds, rhs_bounds, 1)",
+     "            propagator = VariableBoundBoundsMinPropagator(\n                lhs_bounds, rhs_bounds, 2)", ["C14"]),
+    ("bounds_expr_le_as_lt", "src/vsc/visitors/variable_bound_visitor.py",
+     "        elif op == BinExprType.Le:\n            # The max bound is \n            propagator = VariableBoundExprMaxPropagator(\n                lhs_bounds,\n                rhs_e)",
+     "        elif op == BinExprType.Le:\n            # The max bound is \n            propagator = VariableBoundExprMaxPropagator(\n                lhs_bounds,\n                ExprBinModel(rhs_e, BinExprType.Sub, ExprLiteralModel(1, False, 4)))", ["C14"]),
+    ("bounds_nre_lt_no_plus1_wrongway", "src/vsc/visitors/variable_bound_visitor.py",
+     "            # <expr> < <var>  <-> <var> >= <expr>+1\n            # Sets the minimum bound for the variable\n            propagator = VariableBoundExprMinPropagator(\n                rhs_bounds,\n                ExprBinModel(\n                    lhs_e,\n                    BinExprType.Add,\n                    ExprLiteralModel(1, False, 4)))",
+     "            propagator = VariableBoundExprMinPropagator(\n                rhs_bounds,\n                ExprBinModel(\n                    lhs_e,\n                    BinExprType.Add,\n                    ExprLiteralModel(2, False, 4)))", ["C14"]),
+    ("swizzle_dwidth_short", "src/vsc/model/solvegroup_swizzler_partsel.py",
+     "            bit_pattern = self.randstate.randint(t_range[0], t_range[1])", "            d_width = max(1, d_width-1)\n            bit_pattern = self.randstate.randint(t_range[0], t_range[1])", ["C14"]),
+    ("swizzle_range_idx_skips_last", "src/vsc/model/solvegroup_swizzler_partsel.py",
+     "            range_idx = self.randstate.randint(0, len(range_l)-1)", "            range_idx = self.randstate.randint(0, max(0, len(range_l)-2))", ["C14"]),
+    ("bounds_visit_if_bodies", "src/vsc/visitors/variable_bound_visitor.py",
+     "    def visit_constraint_if_else(self, c:ConstraintIfElseModel):", "    def visit_constraint_if_else_DISABLED(self, c:ConstraintIfElseModel):", ["C14"]),
+    ("in_propagator_drops_first", "src/vsc/model/variable_bound_in_propagator.py",
+     "        for i in range(0,len(in_r_l_t)):", "        for i in range(1 if len(in_r_l_t) > 2 else 0,len(in_r_l_t)):", ["C14"]),
+    ("unconstrained_range_short", "src/vsc/model/randomizer.py",
+     "                    self.randstate.randint(range_l[0][0], range_l[0][1]))", "                    self.randstate.randint(range_l[0][0], max(range_l[0][0], range_l[0][1]-1)))", ["C14"]),
     ("unsat_returns", "src/vsc/model/randomizer.py",
      "            if btor.Sat() != btor.SAT:\n                # If the system doesn't solve with hard constraints added,",
      "            if btor.Sat() != btor.SAT and len(constraint_l) > 3:\n                # If the system doesn't solve with hard constraints added,",
